@@ -7,7 +7,7 @@ A_RNG = "A-RNG: rand::thread_rng().gen_range(lo..hi) returns some value in lo..h
 A_ORD = "A-ORD: the element type's Ord/PartialOrd is a lawful total order and Clone returns an equal value (lawful_ord / lawful_clone are preconditions; proved non-vacuous for u64, i64, usize)"
 A_STD = "A-STD: contracts of std functions used by the bodies (binary_search, sort_unstable, dedup, split_at_mut, Option/Vec basics) as stated in shim/"
 A_VERUS = "Verus 0.2026.09.13 + Z3 are sound; arithmetic overflow is checked by Verus on the executable text"
-A_EXTRACT = "the extractor copies bodies byte-for-byte apart from rewrites R1-R7 (DESIGN.md 2.1); the generated text is re-derived from /repo on every run"
+A_EXTRACT = "the extractor copies bodies byte-for-byte apart from the rewrites R1-R12 listed in DESIGN.md 8a; the generated text is re-derived from /repo on every run"
 A_ENUM = "bounded enumerations run the real crate (cfg hook on) and are complete only up to the stated bound"
 
 # witness search used when a Verus obligation of that function fails (replay enumeration name)
@@ -125,7 +125,7 @@ PROPS = {
         "technique": "Verus must-panic (`ensures false`) and no-panic contracts on extracted selection/partition/bin-index bodies",
         "design_ref": "DESIGN.md 2.3, 4 (C16)",
         "verus": [("sort", "N"), ("sort", "P"), ("bins", "N"), ("bins", "P")],
-        "enum": [{"name": "oob"}],
+        "enum": [{"name": "oob"}, {"name": "oob", "profile": "relfast"}],
         "assumptions": [A_ND, A_RNG, A_ORD, A_VERUS, A_EXTRACT, A_ENUM,
                         "must-panic mode: ndarray's Index/swap/slice_axis_mut and rand's gen_range return only for in-range arguments; debug_assert! is a no-op (release semantics)"],
         "not_decided": [],
